@@ -1987,7 +1987,7 @@ func (c *Cache) additionalAnswer(ctx context.Context, msg *dns.Msg) *dns.Msg {
 			lineage.inherit()
 			return msg
 		}
-		if respCname != nil && respCname.Rcode == dns.RcodeServerFailure {
+		if respCname != nil && respCname.Rcode != dns.RcodeSuccess && respCname.Rcode != dns.RcodeNameError {
 			// The alias target failed to resolve or to validate. Handing
 			// the client the alias alone — NOERROR, no address, AD still
 			// set on the validated CNAME — reads as "this name has no such
@@ -1998,12 +1998,15 @@ func (c *Cache) additionalAnswer(ctx context.Context, msg *dns.Msg) *dns.Msg {
 			if opt := msg.IsEdns0(); opt != nil {
 				do = opt.Do()
 			}
-			var out *dns.Msg
+			// Any failing rcode of the hop counts — an upstream's REFUSED,
+			// FORMERR or NOTIMP leaves the chain just as incomplete as a
+			// SERVFAIL. A hop that failed without saying why still owes an
+			// EDNS client an extended error.
+			edeCode, edeText := dns.ExtendedErrorCodeOther, "alias target resolution failed: "+dns.RcodeToString[respCname.Rcode]
 			if ede := dnsutil.GetEDE(respCname); ede != nil {
-				out = dnsutil.SetRcodeWithEDE(msg, dns.RcodeServerFailure, do, ede.InfoCode, ede.ExtraText)
-			} else {
-				out = dnsutil.SetRcode(msg, dns.RcodeServerFailure, do)
+				edeCode, edeText = ede.InfoCode, ede.ExtraText
 			}
+			out := dnsutil.SetRcodeWithEDE(msg, dns.RcodeServerFailure, do, edeCode, edeText)
 			if localErr := middleware.RequestLocalFailureForResponse(ctx, respCname); localErr != nil {
 				middleware.MarkRequestLocalFailureResponse(ctx, out, localErr)
 			}
